@@ -235,6 +235,18 @@ func runC09Ciphertexts(c *Ctx) {
 			add(c09Case{alg: pick(c.R, dataAlgs...), transport: tr + "\x00", digest: dg, data: randBytes(c, 12+16*c.R.Intn(4)), class: "transport-digest", desc: "transport " + shortAlg(tr) + " digest " + shortAlg(strings.TrimSuffix(dg, "\x00"))})
 		}
 	}
+	// string literals that are new in the source (empty on the unchanged tree): tried as digest / transport / data algorithm
+	// identifiers, so that a change keyed on an identifier is exercised with that very identifier
+	for i, nl := range novelXML {
+		if i >= 40 {
+			break
+		}
+		for _, tr := range transports {
+			add(c09Case{alg: pick(c.R, dataAlgs...), transport: tr + "\x00", digest: nl, data: randBytes(c, 12+16*c.R.Intn(4)), class: "novel-literal", desc: "transport " + shortAlg(tr) + " digest (new literal) " + nl})
+		}
+		add(c09Case{alg: pick(c.R, dataAlgs...), transport: nl + "\x00", digest: "-", data: randBytes(c, 28), class: "novel-literal", desc: "transport (new literal) " + nl})
+		add(c09Case{alg: nl, data: randBytes(c, 48), class: "novel-literal", desc: "data algorithm (new literal) " + nl})
+	}
 	for _, kcv := range []string{"", "!", "QUJD", b64(randBytes(c, 256)), b64(randBytes(c, 255)), b64(make([]byte, 256)), b64(bytes.Repeat([]byte{0xff}, 256))} {
 		for _, det := range []bool{false, true} {
 			add(c09Case{alg: pick(c.R, dataAlgs...), keyCV: kcv + "\x00", detached: det, data: randBytes(c, 48), class: "key-ciphervalue", desc: fmt.Sprintf("EncryptedKey CipherValue %.12q detached=%v", kcv, det)})
